@@ -303,3 +303,74 @@ def values_of(g, ex, frame, depth=0):
         if isinstance(r, _ast.Return) and r.value is not None:
             out += values_of(g, r.value, callee, depth + 1)
     return out or [(ex, frame)]
+
+
+def owner_closure(e, cls_qname: str, owners):
+    """`owners` (method names of the class) plus every private method of the
+    class that is referenced from members of the closure only: a helper
+    extracted from an owner is part of it."""
+    import ast as _ast
+    from ..model import walk_own
+    c = e.p.classes.get(cls_qname)
+    out = set(owners)
+    if c is None:
+        return out
+    refs = {}
+    for mname, m in c.methods.items():
+        for x in walk_own(m.node):
+            if isinstance(x, _ast.Attribute) and isinstance(
+                    x.value, _ast.Name) and x.value.id in (
+                        'self', 'cls', c.name) and \
+                    x.attr in c.methods and x.attr != mname:
+                refs.setdefault(x.attr, set()).add(mname)
+    changed = True
+    while changed:
+        changed = False
+        for mname in c.methods:
+            if mname not in out and mname.startswith('_') and \
+                    refs.get(mname) and refs[mname] <= out:
+                out.add(mname)
+                changed = True
+    return out
+
+
+def class_constants(e, cls_qname: str):
+    """{attribute name: constant value} assigned in the class body"""
+    import ast as _ast
+    c = e.p.classes.get(cls_qname)
+    out = {}
+    if c is None:
+        return out
+    for st in c.node.body:
+        if isinstance(st, _ast.Assign) and isinstance(st.value,
+                                                       _ast.Constant):
+            for t in st.targets:
+                if isinstance(t, _ast.Name):
+                    out[t.id] = st.value.value
+    return out
+
+
+def tolerates(n, names=('OSError', 'IOError', 'EnvironmentError',
+                        'Exception', 'BaseException',
+                        'FileNotFoundError')):
+    """Is CFG node n inside `try ... except <one of names>` or
+    `with suppress(<one of names>)`?"""
+    import ast as _ast
+    for sc in n.scopes:
+        if sc.kind == 'try':
+            for types, h in sc.data.get('handlers', []):
+                if any(t.rpartition('.')[2] in names for t in types) or \
+                        not types:
+                    return True
+        if sc.kind == 'with':
+            items = getattr(sc.ast, 'items', None) or [sc.ast]
+            for it in items:
+                if not hasattr(it, 'context_expr'):
+                    continue
+                ce = it.context_expr
+                if isinstance(ce, _ast.Call) and \
+                        _ast.unparse(ce.func).endswith('suppress') and any(
+                            _ast.unparse(a).rpartition('.')[2] in names
+                            for a in ce.args):
+                    return True
+    return False
